@@ -70,7 +70,11 @@ TOther == (Is("SWHeader") \/ Is("SWWrite") \/ Is("SWClose") \/ Is("SerStart") \/
            \/ Is("HandlerDone") \/ Is("Final") \/ Is("Backoff") \/ Is("HWrite") \/ Is("UpAbort")) /\ Stutter
                /\ Step
 
-TNext == TReset \/ TAttempt \/ TAttemptErr \/ TAttemptStatus \/ TBrsRead \/ TBrsSeek \/ TUpStart \/ TUpFail
+\* 16 forwarders at a time (no per-step events): every acknowledged upload was the forwarder's own response,
+\* no handler stayed blocked
+TStress == Is("UploadStress") /\ Stutter /\ E.ok /\ E.runs > 0 /\ E.acked > 0 /\ E.corrupt = 0 /\ E.blocked = 0
+               /\ Step
+TNext == TStress \/ TReset \/ TAttempt \/ TAttemptErr \/ TAttemptStatus \/ TBrsRead \/ TBrsSeek \/ TUpStart \/ TUpFail
          \/ TUpAck \/ TProduce \/ TObserve \/ TStreamDone \/ TCloseDone \/ TOther
 TSpec == TInit /\ [][TNext]_<<ovars, l>>
 
